@@ -964,6 +964,47 @@ FUNCS = [
          verbatim=[('if !size.is_power_of_two() { return Err(format!("Block size must be a power of 2, got {size}")); }', "if !(decide (2 ^ Nat.log2 size = size)) then\n  return false"),
                    ('if !(512..=65536).contains(&size) { return Err(format!("Block size must be 512-65536, got {size}")); }', "if !(decide (512 ≤ size ∧ size ≤ 65536)) then\n  return false"),
                    ("Ok(())", "return true")]),
+    # ---- single_sync.rs: which of the three single-file runs a pair of endpoints gets (after the block-size test)
+    dict(group="delta", file="src/bin/copia/single_sync.rs", name="run_sync", sig=None,
+         lean="def singleDispatchGen (block_size : Nat) (src_remote dst_remote : Bool) : Option Nat := Id.run do\n"
+              "  -- the endpoints as local / remote; result: 0 = local to local, 1 = local to remote, 2 = remote to local; none = refused (nothing runs)",
+         calls={}, paths={},
+         verbatim=[("validate_block_size(block_size)?;", "if !(validateBlockSizeGen block_size) then\n  return none"),
+                   ("match (&source, &dest) { (FileLocation::Local(local_src), FileLocation::Local(local_dest)) => { run_sync_local_to_local(local_src, local_dest, block_size, verbose).await } "
+                    "(FileLocation::Local(local_src), FileLocation::Remote { host, path }) => { run_sync_local_to_remote(local_src, host, path, block_size, verbose).await } "
+                    "(FileLocation::Remote { host, path }, FileLocation::Local(local_dest)) => { run_sync_remote_to_local(host, path, local_dest, block_size, verbose).await } "
+                    "( FileLocation::Remote { host: src_host, path: src_path, }, FileLocation::Remote { host: dst_host, path: dst_path, }, ) => "
+                    'Err(format!( "Remote-to-remote sync not yet supported: {src_host}:{src_path} -> {dst_host}:{dst_path}" ) .into()), }',
+                    "return (match (src_remote, dst_remote) with\n  | (false, false) => some 0\n  | (false, true) => some 1\n  | (true, false) => some 2\n  | (true, true) => none)")]),
+    # ---- single_sync.rs: the single-file push (`copia sync LOCAL host:FILE`): the push primitive of `sync -r`, without a time stamp
+    dict(group="delta", file="src/bin/copia/single_sync.rs", name="run_sync_local_to_remote", sig=None,
+         lean="def singlePushGen (transfer : Option Nat) : Bool := Id.run do\n"
+              "  -- world: the result of `transfer_file_to_remote(source, host, remote_path, None)` (translated on its own, group `deliver`): some n = n bytes sent, none = Err; true = Ok(())",
+         calls={}, paths={},
+         verbatim=[('if block_size != 4096 { eprintln!("Warning: --block-size is not yet implemented for remote transfers. Using SSH streaming."); }', ""),
+                   ('if verbose { eprintln!("Syncing {} -> {}:{}", source.display(), host, remote_path); }', ""),
+                   ("let size = transfer_file_to_remote(source, host, remote_path, None) .await .map_err(|e| -> Box<dyn std::error::Error> { e.into() })?;",
+                    "let some _size := transfer | return false"),
+                   ('if verbose { eprintln!("Transferred: {size} bytes"); }', ""),
+                   ("Ok(())", "return true")]),
+    # ---- single_sync.rs: the single-file pull (`copia sync host:FILE LOCAL`)
+    dict(group="delta", file="src/bin/copia/single_sync.rs", name="run_sync_remote_to_local", sig=None,
+         lean="def singlePullGen (ssh : Option (Bool × List Nat)) (write_ok : Bool) : Option (List Nat) := Id.run do\n"
+              "  -- world: what `ssh host \"cat FILE\"` gives (none = it cannot be run; else exit status ok? and its whole stdout), whether `fs::write(dest, …)` succeeds;\n"
+              "  -- result: some b = Ok(()) with `dest` holding b; none = Err. Terminal output is not modelled",
+         calls={}, paths={},
+         verbatim=[('if block_size != 4096 { eprintln!("Warning: --block-size is not yet implemented for remote transfers. Using SSH streaming."); }', ""),
+                   ("use tokio::process::Command;", ""),
+                   ('if verbose { eprintln!("Syncing {}:{} -> {}", host, remote_path, dest.display()); }', ""),
+                   ('let output = Command::new("ssh") .arg(host) .arg(format!( "cat $\'{}\'", remote_path.replace(\'\\\\\', "\\\\\\\\").replace(\'\\\'\', "\\\\\'") )) .output() .await?;',
+                    "let some output := ssh | return none"),
+                   ('if !output.status.success() { let stderr = String::from_utf8_lossy(&output.stderr); return Err(format!("SSH transfer failed: {stderr}").into()); }',
+                    "if !output.1 then\n  return none"),
+                   ("let remote_data = output.stdout;", "let remote_data := output.2"),
+                   ("let remote_size = remote_data.len();", ""),
+                   ("tokio::fs::write(dest, &remote_data).await?;", "if !write_ok then\n  return none"),
+                   ('if verbose { eprintln!("Remote size: {remote_size} bytes"); }', ""),
+                   ("Ok(())", "return (some remote_data)")]),
     dict(group="delta", file="src/bin/copia/main.rs", name="run_patch", sig=None,
          lean="def runPatchGen {D : Type} [DecidableEq D] (H : List Nat → D) (deserialize : Option (Delta D)) (basis_bytes : Option (List Nat)) :\n"
               "    Bool × Option (List Nat) := Id.run do\n"
@@ -1480,6 +1521,22 @@ FUNCS = [
          verbatim=[('let mut dir_list = format!("{remote_root}\\0");', "let mut dir_list : List Char := remote_root ++ ['\\x00']"),
                    ('for dir in dirs { if write!(dir_list, "{}/{}\\0", remote_root, dir.display()).is_err() { eprintln!( "Warning: failed to format directory path: {}", dir.display() ); } }',
                     "for dir in dirs do\n  dir_list := dir_list ++ (remote_root ++ '/' :: dir ++ ['\\x00'])")]),
+    # ---- incremental.rs / main.rs: from the number of failed transfers to the process's exit status
+    dict(group="oneway", file="src/bin/copia/incremental.rs", name="report", sig=None,
+         lean="def reportGen (failed : Nat) : Bool := Id.run do\n"
+              "  -- world: the number of failed transfers (`progress.failed()`); true = Ok(()), false = Err — terminal output is not modelled",
+         calls={}, paths={}, methods={"failed": lambda r, a: "failed"},
+         verbatim=[("let elapsed = start.elapsed();", ""), ("let tx = progress.bytes();", ""),
+                   ('if verbose { eprintln!("{src_desc} -> {dst_desc}"); }', ""),
+                   ('return Err(format!("{} file(s) failed to transfer", progress.failed()).into());', "return false"),
+                   ("Ok(())", "return true")]),
+    dict(group="oneway", file="src/bin/copia/main.rs", name="main (the exit status)", fn="main", sig=None,
+         slice=("match run(cli).await {", 'eprintln!("Error: {e}");\n            ExitCode::FAILURE'), slice_close=2,
+         lean="def exitStatusGen (ok : Bool) : Nat := Id.run do\n"
+              "  -- `run(cli).await` is Ok(()) (`ok`) or an error; ExitCode::SUCCESS is status 0, ExitCode::FAILURE status 1",
+         calls={}, paths={},
+         verbatim=[('match run(cli).await { Ok(()) => ExitCode::SUCCESS, Err(e) => { eprintln!("Error: {e}"); ExitCode::FAILURE } }',
+                    "if ok then\n  return 0\nelse\n  return 1")]),
     # ---- incremental.rs: the orchestration of a local recursive run
     dict(group="oneway", file="src/bin/copia/incremental.rs", name="run_local", sig=None,
          lean="def runLocalGen {K C : Type} [DecidableEq K] (le : K → K → Bool) (excl : K → Bool) (delete_ dry_run : Bool)\n"
